@@ -26,6 +26,19 @@ checks = {
           "Very long inputs are outside the bound (N <= 5). "),
  "C14": g("Two instances (same parser type, two different parser packages, and two instances initialised with the SAME option values) make their API calls (init, parse, execute/print/error) in every merge order of the enumerated set; each instance's observables must equal its run-alone observables and the actors' heap footprints must be write-disjoint.",
           "Non-interference argument (disjoint write footprints => any real schedule is equivalent to a sequential one), not scheduler exploration; sync.Pool is modelled as handing out the most recently Put item. "),
+ "C15": dict(
+   text="The real (*tree.Tree).Compile (first/second pass, link, countRules, checkRecursion, the emission loop's diagnostics, Strict epilogue) is executed symbolically on skeleton grammars built through the exported builder, "
+        "with the operator labels (? * + & ! <>, choice/sequence, terminal kinds), -inline and Strict as solver variables, against an independent analysis (definedness, reachability, Ford-style left recursion incl. nullable prefixes and all operators): "
+        "'used but not defined' and 'defined but not used' must name exactly the right rules, a left-recursive rule must be named and no left-recursion warning may appear in a grammar without one, "
+        "Strict turns any diagnostic into an error, a clean grammar is silent, a duplicate definition is diagnosed without a crash.",
+   note=NOTE_COMMON + "Skeletons: 1-3 rules, 7 body shapes, every wiring of name leaves for one rule and seeded samples for 2-3 rules; text/template, go/parser, go/printer stubbed; labels are concretised where the code indexes by them (exhaustive per skeleton). The -strict exit status is C18's harness.",
+   design="DESIGN.md 4/C15"),
+ "C09": dict(
+   text="REDUCED CLAIM (DESIGN.md 5): on the C15 skeletons one generation is run with its two analysis tasks in both orders (symbolic boolean) and every map range in every permutation, each task under its own actor: "
+        "diagnostics/error/output must equal those of a reference generation, the two tasks' write footprints must be disjoint from each other's accesses, and two generations of independent trees must not share written state. "
+        "Disjoint footprints make every finer interleaving equivalent to one of the two sequential orders. Counterexamples and samples are re-run natively 12x under the Go race detector.",
+   note=NOTE_COMMON + "Not covered: the real scheduler, GOMAXPROCS, cross-process byte identity of the emitted file (template/printer are stubs symbolically; compared natively only).",
+   design="DESIGN.md 4/C09, 5"),
  "C16": dict(
    text="Bounded model checking of the real set/set.go: every exported operation after every history of <= k AddRange/Add calls with ARBITRARY arguments over all code points "
         "(membership, union, intersects, complement, extensional equality, operands unmodified, no aliasing) and over a small universe for Len/String; the solver quantifies over all endpoints, limits and probe elements. "
